@@ -7,6 +7,7 @@ import KB.Driver.Util
 import KB.Driver.Suites
 import KB.Driver.Sched
 import KB.Driver.Election
+import KB.Driver.Roles
 open KB KB.Driver
 
 partial def loop {σ : Type} (h : IO.FS.Stream) (step : σ → List String → σ × String) (st : σ) : IO Unit := do
@@ -31,4 +32,5 @@ def main (args : List String) : IO Unit := do
   -- one line per suite: `| "name" => loop stdin Name.step Name.init`
   | "sched" => loop stdin Sched.step Sched.init
   | "election" => loop stdin Election.step Election.init
+  | "roles" => loop stdin Roles.step Roles.init
   | _ => loop stdin (stepSuite suiteName) (initSuite suiteName [])
